@@ -104,7 +104,15 @@ class UNet(nn.Module):
             )
         )
 
-        x_in_shape = int(filters * (filters_rate ** (down_blocks + stem_blocks)))
+        # Channels of the encoder's output: the middle block widens to the next exponent;
+        # without it the decoder is fed the last down block's channels (after pooling).
+        x_in_shape = int(
+            filters
+            * (
+                filters_rate
+                ** (down_blocks + stem_blocks - (0 if self.middle_block else 1))
+            )
+        )
 
         self.dec = Decoder(
             x_in_shape=x_in_shape,
